@@ -37,6 +37,11 @@ META = {
             "length the lifecycle model abstracts to a flag); harness/c02_impl.cpp.",
 }
 
+# ---- additions of the translator / tie session
+META["text"] += (" The model's single close routine is tied to the source: coq/Gen/CloseShape.v (closeNow of TcpEngine and UdpEngine: "
+                 "test of the closed flag with early return, store of the flag, removal from the table, gauge decrement, callback - "
+                 "from clang's AST, regenerated every run) and C02/GenTie.v engines_generated_close_routine_ok.")
+
 
 def pick(rng, xs):
     # recent identifiers are more interesting
